@@ -5,8 +5,10 @@ import (
 	"fmt"
 	"hash/fnv"
 	"io"
+	"net/http"
 	"path/filepath"
 	"runtime"
+	"sort"
 	"strings"
 	"time"
 
@@ -30,6 +32,17 @@ func validDoc(r *run, kind string) *simrt.SimFile {
 	switch kind {
 	case "results-gob", "results-csv", "results-json":
 		rs := genResults(r, 1+t.Choose(5), simcommon.GenOpts{MaxBody: 300})
+		for i := range rs {
+			// gob and JSON write header maps in map order: at most one key keeps the document bytes deterministic
+			if len(rs[i].Headers) > 1 {
+				keys := make([]string, 0, len(rs[i].Headers))
+				for k := range rs[i].Headers {
+					keys = append(keys, k)
+				}
+				sort.Strings(keys)
+				rs[i].Headers = http.Header{keys[0]: rs[i].Headers[keys[0]]}
+			}
+		}
 		enc := encoderFor(strings.TrimPrefix(kind, "results-"), f)
 		for i := range rs {
 			enc.Encode(&rs[i])
